@@ -11,6 +11,7 @@ mod like;
 mod modeled;
 mod probe;
 mod rng;
+#[cfg(feature = "codec-std")]
 mod stacks;
 mod streams;
 
